@@ -16,6 +16,7 @@ def run(rep):
     rep.guard(n4, rep, w)
     import c06
     rep.guard(c06.s1, rep, w)      # teardown of a failed run must not leave closures pointing into the discarded stack
+    rep.guard(c06.s8, rep, w, 'C15')    # ... in any fiber of the failed run
     import c14
     rep.guard(c14.m4, rep, w)      # a snippet whose import fails to load/compile leaves no half-registered module behind
     rep.guard(c14.m4b, rep, w)
